@@ -45,6 +45,9 @@ def run(tier: str) -> int:
     for i in range(n_cfg):
         cfg = twins.random_config(rng, rl=(i % 4 == 3), heavy=(i % 2 == 0))
         vs = VARIANTS if tier == "thorough" else [VARIANTS[0], VARIANTS[4 if i % 2 else 1]] + rng.sample(VARIANTS[1:], 2)
+        if cfg["kind"] == "rl" and i % 8 == 7:
+            # no Halton sampler (and no best-batch, which needs one of its own): the scheduler adds its bootstrap sampler itself
+            cfg["lineup"] = [[n if n not in ("HaltonSampler", "BestBatchSampler") else "RandomUniformSampler", b] for n, b in cfg["lineup"]]
         if cfg["kind"] == "rl":
             if VARIANTS[5] not in vs:
                 vs = vs + [VARIANTS[5]]      # the agent built with another seed
